@@ -232,6 +232,22 @@ func handcrafted() []hcase {
 	add(EO, "Argument body truncated", cat([]byte{1, 0, 0x2a, 0x01, 1}, le32(uint32(len(arg)-2)), arg))
 	add(EO, "Argument via numeric id", cat([]byte{2, 0, 0, 0x2a, 0x01, 0, 0, 1}, le32(uint32(len(arg))), arg))
 	add(EO, "guid type id", cat([]byte{4, 0, 0}, rep([]byte{1}, 16), []byte{1}, le32(1), []byte{9}))
+	// mask bits set while the governed field has its default value (an encoder driven by content instead of the mask breaks here)
+	LT, EN := "(TCustom CLocText)", "(TCustom CExpNodeID)"
+	add(LT, "mask 3, null strings", cat([]byte{3}, le32(0xffffffff), le32(0xffffffff)))
+	add(LT, "mask 3, empty strings", cat([]byte{3}, le32(0), le32(0)))
+	add(LT, "mask 2, null text", cat([]byte{2}, le32(0xffffffff)))
+	add(LT, "mask 1, null locale", cat([]byte{1}, le32(0xffffffff)))
+	add(LT, "mask 0xff", cat([]byte{0xff}, le32(1), []byte{0x61}, le32(0)))
+	add(DI, "mask 0x3f, default fields", cat([]byte{0x3f}, rep([]byte{0}, 16), le32(0xffffffff), le32(0)))
+	add(DI, "mask 0x7f, inner empty", cat([]byte{0x7f}, rep([]byte{0}, 16), le32(0), le32(0), []byte{0}))
+	add(DV, "mask 0x3f, default fields", cat([]byte{0x3f, 0}, rep([]byte{0}, 4+8+2+8+2)))
+	add(DV, "mask 0xfe, no value", cat([]byte{0xfe}, rep([]byte{0}, 4+8+2+8+2)))
+	add(EN, "uri and index flags, null uri, index 0", cat([]byte{0xc0, 5}, le32(0xffffffff), le32(0)))
+	add(EN, "uri flag, empty uri", cat([]byte{0x81, 0, 5, 0}, le32(0)))
+	add(NI, "string id null", cat([]byte{3, 0, 0}, le32(0xffffffff)))
+	add(NI, "string id empty", cat([]byte{3, 0, 0}, le32(0)))
+	add(NI, "bytestring id empty", cat([]byte{5, 1, 0}, le32(0)))
 	add(NI, "guid short", []byte{4, 0, 0, 1, 2, 3})
 	for typ := 0; typ < 16; typ++ {
 		add(NI, fmt.Sprintf("node id type %d zeros", typ), cat([]byte{byte(typ)}, rep([]byte{0}, 20)))
